@@ -33,7 +33,7 @@ impl IrValue {
         match self {
             Native(x) => {
                 let bytes = x.to_bytes_le();
-                if n as u32 > F::NUM_BITS.div_ceil(8) || bytes[n..].iter().any(|&b| b != 0) {
+                if n > F::NUM_BITS.div_ceil(8) as usize || bytes[n..].iter().any(|&b| b != 0) {
                     Err(Error::Other(format!("cannot convert {x} to Bytes({n})")))
                 } else {
                     Ok(bytes[..n].to_vec().into())
@@ -41,7 +41,8 @@ impl IrValue {
             }
 
             BigUint(big) => {
-                let bytes = big.to_bytes_le();
+                // NB: `to_bytes_le` of zero is `[0]`, although zero fits in 0 bytes.
+                let bytes = if big.bits() == 0 { vec![] } else { big.to_bytes_le() };
                 if bytes.len() > n {
                     Err(Error::Other(format!("cannot convert {big} to Bytes({n})")))
                 } else {
@@ -87,6 +88,11 @@ pub fn into_bytes_incircuit(
     use CircuitValue::*;
     match input {
         Native(x) => {
+            if n > F::NUM_BITS.div_ceil(8) as usize {
+                return Err(Error::Other(format!(
+                    "cannot convert a native value to Bytes({n})"
+                )));
+            }
             let bytes = std_lib.assigned_to_le_bytes(layouter, x, Some(n))?;
             Ok(bytes.to_vec().into())
         }
@@ -94,8 +100,10 @@ pub fn into_bytes_incircuit(
         BigUint(big) => {
             let mut bytes = std_lib.biguint().to_le_bytes(layouter, big)?;
 
-            bytes[n..]
+            // (`n` may exceed the number of bytes of the limbs: nothing to check then)
+            bytes
                 .iter()
+                .skip(n)
                 .try_for_each(|b| std_lib.assert_equal_to_fixed(layouter, b, 0u8))?;
 
             let zero = std_lib.assign_fixed(layouter, 0u8)?;
